@@ -4,15 +4,24 @@
   Optional field "resume": a second scheduler; when the first run aborts with an error the run is
   continued from the failed state with that scheduler (crash/resume scenarios), and the answer
   carries both results ("first", then the top-level fields for the resumed run).
+  Optional field "queue": "heap" runs the model over the transcription of CPython's array heap
+  (`heapQ`): equal-key events are then processed in exactly the order the real `EventQueue` hands
+  them out; default / "canonical": the stable-sort queue of `EventCore.lean`.
 -/
 import AcnModel.WireSim
+import AcnModel.SimQ
 open Lean Acn Acn.Wire Acn.EventCore Acn.Sim
 
 def handle (j : Json) : Except String Json := do
   let cfg ← parseSimCfg j
   let sched ← parseSched (← j.getObjVal? "sched")
   let fuel := fuelFor cfg.core
-  let r := Sim.run cfg sched fuel (Sim.init cfg)
+  let heap := match j.getObjVal? "queue" with
+    | .ok (Json.str "heap") => true
+    | _ => false
+  let runIt := fun (sch : View Float → Except Err (Schedule Float)) (s : Sim.State Float) =>
+    if heap then Sim.runQ heapQ cfg sch fuel s else Sim.run cfg sch fuel s
+  let r := runIt sched (if heap then Sim.initQ heapQ cfg else Sim.init cfg)
   match j.getObjVal? "resume" with
   | .error _ => pure (jResult cfg r)
   | .ok rj =>
@@ -20,7 +29,7 @@ def handle (j : Json) : Except String Json := do
     | none => pure (jResult cfg r)
     | some _ =>
       let sched2 ← parseSched rj
-      let r2 := Sim.run cfg sched2 fuel r.1
+      let r2 := runIt sched2 r.1
       pure ((jResult cfg r2).setObjVal! "first" (jResult cfg r))
 
 def main : IO Unit := runDriver handle
